@@ -181,6 +181,40 @@ Definition level_float_ok (c : cfg) (eps : Z) (keys : list Z) (ldk : Z) (k : Z) 
      sg_key (extra_seg c ldk (zlen keys)) <= k -> k < sentinel c ->
      eval_ok c 1 0 (extra_seg c ldk (zlen keys)) k).
 
+(* the same with eval_ok_cap (IdxBlock.v) at the threshold T = level size + eps: what the proofs below
+   consume.  level_float_ok implies level_float_ok_cap; the converse fails for Floating = float
+   (FloatOkAll.cx_not_float_ok), where only the cap version holds (FloatOkCap.v). *)
+Definition EvalOKc (T : Z) (c : cfg) (k : Z) (cs : cseg) (s : segment) (rest : list segment) : Prop :=
+  sg_key s <= k -> match rest with s' :: _ => k < sg_key s' | [] => True end -> k < sentinel c ->
+  eval_ok_cap T c (fst (slope_of cs)) (snd (slope_of cs)) s k.
+
+Definition level_float_ok_cap (c : cfg) (eps : Z) (keys : list Z) (ldk : Z) (k : Z) : Prop :=
+  forall css fed cnt new,
+    make_segmentation_par (c_kt c) par_threshold (c_par c) (zlen keys) eps keys = Ok (css, fed, cnt) ->
+    map_res (segment_of_cseg c) css = Ok new ->
+    EvL (EvalOKc (zlen keys + eps) c k) css new /\
+    (extra_test c (zlen keys) (last new dseg) = true ->
+     sg_key (extra_seg c ldk (zlen keys)) <= k -> k < sentinel c ->
+     eval_ok c 1 0 (extra_seg c ldk (zlen keys)) k).
+
+Lemma EvL_impl (E E' : cseg -> segment -> list segment -> Prop) :
+  (forall cs s rest, E cs s rest -> E' cs s rest) ->
+  forall css new, EvL E css new -> EvL E' css new.
+Proof.
+  intros HE. induction css as [|cs css IH]; intros [|s new] H; cbn [EvL] in *; try exact H.
+  destruct H as [H1 H2]. split; [apply HE; exact H1 | apply IH; exact H2].
+Qed.
+
+Lemma EvalOKc_of T c k cs s rest : EvalOK c k cs s rest -> EvalOKc T c k cs s rest.
+Proof. intros H A B C. apply eval_ok_cap_of. exact (H A B C). Qed.
+
+Lemma level_float_ok_cap_of c eps keys ldk k :
+  level_float_ok c eps keys ldk k -> level_float_ok_cap c eps keys ldk k.
+Proof.
+  intros H css fed cnt new M1 M2. destruct (H css fed cnt new M1 M2) as [H1 H2]. split; [|exact H2].
+  revert H1. apply EvL_impl. intros cs s rest. apply EvalOKc_of.
+Qed.
+
 (* ---- reading a list split at a known position ---- *)
 Lemma nth_mid {A} (l1 : list A) x r d : nth (Z.to_nat (zlen l1)) (l1 ++ x :: r) d = x.
 Proof. unfold zlen. rewrite Nat2Z.id, app_nth2 by lia. rewrite Nat.sub_diag. reflexivity. Qed.
@@ -206,7 +240,7 @@ Qed.
 
 Theorem level_pos c eps keys ldk css g new T k J :
   keys <> [] -> sortedb keys = true -> nowrap (c_kt c) keys -> zlen keys < 2 ^ 32 -> 1 <= eps ->
-  concat g = fed_spec (c_kt c) keys -> Lv c eps (EvalOK c k) css g new ->
+  concat g = fed_spec (c_kt c) keys -> Lv c eps (EvalOKc (zlen keys + eps) c k) css g new ->
   tail_shape c ldk (zlen keys) (last new dseg) T ->
   wrapK (c_kt c) (ldk + 1) = ldk + 1 -> zlen keys - 1 <= lb keys (ldk + 1) ->
   (extra_test c (zlen keys) (last new dseg) = true ->
